@@ -510,7 +510,16 @@ def return_exprs(func_node):
 
 
 def _const_test(test):
-    """True / False for a test made of literals only (`1.0 > 0`), else None"""
+    """True / False for a test made of literals only (`1.0 > 0`), or `E is [not] None` for an E that is never None (a display, a formatted string), else None"""
+    if isinstance(test, ast.Compare) and len(test.ops) == 1 and isinstance(test.ops[0], (ast.Is, ast.IsNot)) and isinstance(test.comparators[0], ast.Constant) \
+            and test.comparators[0].value is None:
+        e = test.left
+        never_none = isinstance(e, (ast.List, ast.Tuple, ast.Dict, ast.Set, ast.JoinedStr, ast.ListComp, ast.DictComp, ast.SetComp, ast.Lambda)) \
+            or (isinstance(e, ast.Constant) and e.value is not None) or (isinstance(e, ast.BinOp) and isinstance(e.op, ast.Mod) and isinstance(e.left, ast.Constant) and isinstance(e.left.value, str))
+        if never_none:
+            return isinstance(test.ops[0], ast.IsNot)
+        if isinstance(e, ast.Constant) and e.value is None:
+            return isinstance(test.ops[0], ast.Is)
     if any(not isinstance(x, (ast.Constant, ast.Compare, ast.BoolOp, ast.UnaryOp, ast.cmpop, ast.boolop, ast.unaryop, ast.Load, ast.BinOp, ast.operator)) for x in ast.walk(test)):
         return None
     try:
